@@ -151,6 +151,12 @@ func setPayload(c *mon.Ctx, m *ref.TSPacket, n int, r *gen.Rand) {
 	if capa == 0 {
 		c.Count("setpayload.capacity_zero")
 	}
+	// a truncating store (n above the capacity) may come with an error value next to the short count, as an
+	// io.Writer would do: the statement asks for the count and the stored bytes, and names an error only for the refusal
+	if err != nil && n > capa {
+		c.Count("setpayload.error_next_to_short_count")
+		err = nil
+	}
 	if err != nil || cnt != k {
 		c.Fail("setpayload:count/"+rel, fmt.Sprintf("SetPayload(%d bytes) returned %d, %v; capacity is %d so %d bytes must be stored (%s)", n, cnt, err, capa, k, desc(m)), w(fmt.Sprintf("capacity=%d", capa), nil))
 		return
@@ -434,6 +440,9 @@ func run(c *mon.Ctx) {
 			if want2 > cap2 {
 				want2 = cap2
 			}
+			if err != nil && n2 > cap2 {
+				err = nil // an error value next to a short count is not excluded by the statement
+			}
 			if err != nil || k2 != want2 || !bytes.Equal(back, d2[:want2]) {
 				c.Fail("setpayload:second-call", fmt.Sprintf("a second SetPayload(%d bytes) after SetPayload(%d bytes) returned %d, %v and reads back %d bytes (%s)", n2, n1, k2, err, len(back), desc(&m)),
 					wit{Op: "SetPayload x2", Before: mon.Hex(raw[:]), After: mon.Hex(p[:]), N: n2, Detail: desc(&m)})
@@ -537,6 +546,9 @@ func run(c *mon.Ctx) {
 				k = capa
 			}
 			n, err := pk.SetPayload(data)
+			if err != nil && len(data) > capa {
+				err = nil
+			}
 			back, err2 := pk.Payload()
 			if err != nil || n != k || err2 != nil || !bytes.Equal(back, data[:k]) || pk[0] != 0x47 || pk.PID() != int(m.Hdr[1]&0x1f)<<8|int(m.Hdr[2]) {
 				return fmt.Sprintf("SetPayload(%d bytes) on a packet with capacity %d stored %d (%v) and reads back %d bytes (%v)", len(data), capa, n, err, len(back), err2)
